@@ -48,16 +48,16 @@ Proof.
   rewrite index_children_length. lia.
 Qed.
 
-Lemma fo_from_list_run_len l w :
-  winv (cnt []) None w -> length (run_fu (fu_inner (fst (fo_from_list P l w)))) = length l.
+Lemma fo_from_list_run_len h l w :
+  winv (cnt []) None w -> length (run_fu (fu_inner (fst (fo_from_list P h l w)))) = length l.
 Proof.
   intros Hw. unfold fo_from_list, fu_from_list.
-  pose proof (@fu_with_capacity_spec false (Nat.max (length (index_children P l 0)) (pMinCap P)) w Hw) as H0.
-  assert (Hrun0 : run_fu (fst (fu_with_capacity (Nat.max (length (index_children P l 0)) (pMinCap P)) w)) = []).
+  pose proof (@fu_with_capacity_spec false (Nat.max h (pMinCap P)) w Hw) as H0.
+  assert (Hrun0 : run_fu (fst (fu_with_capacity (Nat.max h (pMinCap P)) w)) = []).
   { unfold fu_with_capacity. destruct (Nat.eqb _ 0); [reflexivity|].
-    destruct (fub_new_eq' (Nat.max (length (index_children P l 0)) (pMinCap P)) w) as (w0 & ->).
+    destruct (fub_new_eq' (Nat.max h (pMinCap P)) w) as (w0 & ->).
     unfold run_fu, run_gs. simpl. rewrite run_of_new. reflexivity. }
-  destruct (fu_with_capacity (Nat.max (length (index_children P l 0)) (pMinCap P)) w) as [u0 w0].
+  destruct (fu_with_capacity (Nat.max h (pMinCap P)) w) as [u0 w0].
   destruct H0 as (A & B & _). cbn [fst] in Hrun0.
   pose proof (@fu_push_fold_run P HP (index_children P l 0) u0 w0 A B) as Hp.
   destruct (fold_left _ (index_children P l 0) (u0, w0)) as [u w1]. cbn [fst snd fu_inner] in *.
@@ -75,7 +75,7 @@ Proof.
     repeat match goal with
            | |- context [fub_from_list ?l ?w] => destruct (fub_from_list l w)
            | |- context [fub_new ?c ?w] => destruct (fub_new c w)
-           | |- context [fu_from_list P ?m ?l ?w] => destruct (fu_from_list P m l w)
+           | |- context [fu_from_list P ?m ?h ?l ?w] => destruct (fu_from_list P m h l w)
            | |- context [fu_with_capacity ?c ?w] => destruct (fu_with_capacity c w)
            | |- context [join_new ?a ?l ?w] => destruct (join_new a l w)
            end; cbn [ord_inv fst]; auto.
@@ -97,18 +97,18 @@ Proof.
     destruct (fob_new P (p_cap p) (seed_of p) w) as [[q|] w1]; cbn [ord_inv fst]; auto.
     intros _. eapply Ho; reflexivity.
   - (* FO from_iter, no input *)
-    pose proof (@fo_from_list_run_len [] w Hw) as Hl.
-    pose proof (@fo_from_list_order P HP [] w Hw) as Ho.
-    destruct (fo_from_list P [] w) as [q w1] eqn:Hq. cbn [fst] in *.
+    pose proof (@fo_from_list_run_len (lazy_hint p []) [] w Hw) as Hl.
+    pose proof (@fo_from_list_order P HP (lazy_hint p []) [] w Hw) as Ho.
+    destruct (fo_from_list P (lazy_hint p []) [] w) as [q w1] eqn:Hq. cbn [fst] in *.
     destruct (p_seed p); cbn [ord_inv small fst].
     + intros _. unfold fo_oinv. simpl. destruct (run_fu (fu_inner q)); [apply ord_new_oinv|discriminate].
     + intros Hs. apply Ho. simpl. pose proof (@msb_pos P (HW2 HP)). lia.
   - (* FO from_iter *)
-    pose proof (@fo_from_list_run_len (c :: l) w Hw) as Hl.
-    pose proof (@fo_from_list_order P HP (c :: l) w Hw) as Ho.
-    destruct (fo_from_list P (c :: l) w) as [q w1] eqn:Hq. cbn [fst] in *.
+    pose proof (@fo_from_list_run_len (lazy_hint p (c :: l)) (c :: l) w Hw) as Hl.
+    pose proof (@fo_from_list_order P HP (lazy_hint p (c :: l)) (c :: l) w Hw) as Ho.
+    destruct (fo_from_list P (lazy_hint p (c :: l)) (c :: l) w) as [q w1] eqn:Hq. cbn [fst] in *.
     assert (Hheap : oheap (fu_ord q) = []).
-    { unfold fo_from_list in Hq. destruct (fu_from_list P false _ w). inversion Hq; subst. reflexivity. }
+    { unfold fo_from_list in Hq. destruct (fu_from_list P false _ _ w). inversion Hq; subst. reflexivity. }
     cbn [ord_inv small fst]. intros Hs. apply Ho. unfold held, hidx in Hs. rewrite Hheap in Hs. simpl in Hs.
     rewrite app_nil_r, Hl in Hs. lia.
   - (* FO new *)
